@@ -136,13 +136,38 @@ func (in *valInst) Apply(act map[string]interface{}) (map[string]interface{}, er
 	if err != nil {
 		return nil, err
 	}
+	// builders derived from the set (and from a copy of it) are the caller's own: mutating them must not show in the set
+	encBefore := string(enc)
+	mutate := func(b pos.ValidatorsBuilder) {
+		for i := 1; i <= nIds; i++ {
+			if _, ok := b[idx.ValidatorID(i)]; ok {
+				b.Set(idx.ValidatorID(i), 0)
+			} else {
+				b.Set(idx.ValidatorID(i), 2)
+			}
+		}
+		b.Set(9, 1)
+	}
+	cp := v.Copy()
+	mutate(v.Builder())
+	mutate(cp.Builder())
+	encAfter, err := rlp.EncodeToBytes(v)
+	if err != nil {
+		return nil, err
+	}
+	encCopy, err := rlp.EncodeToBytes(cp)
+	if err != nil {
+		return nil, err
+	}
+	derivedOK := same(f, form(v)) && same(f, form(cp)) && string(encAfter) == encBefore && string(encCopy) == encBefore
 	return map[string]interface{}{
-		"rlp_same":                   fresh,
-		"copy_same":                  same(f, form(v.Copy())),
-		"builder_same":               same(f, form(v.Builder().Build())),
-		"decode_into_other_same":     other,
-		"decode_into_prev_copy_same": intoPrev,
-		"prev_unchanged":             same(prevForm, form(prev)) && same(f, form(v)),
+		"unchanged_by_derived_builders": derivedOK,
+		"rlp_same":                      fresh,
+		"copy_same":                     same(f, form(v.Copy())),
+		"builder_same":                  same(f, form(v.Builder().Build())),
+		"decode_into_other_same":        other,
+		"decode_into_prev_copy_same":    intoPrev,
+		"prev_unchanged":                same(prevForm, form(prev)) && same(f, form(v)),
 	}, nil
 }
 
@@ -164,6 +189,59 @@ func fromLimbs(l []uint32) *big.Int {
 }
 
 func init() {
+	// {"ids": [...], "ws": [...], "sorted_ids": canonical order, "sorted_ws": .., "idx": canonical index of ids[k], "total": ..}
+	vecKinds["canon"] = func(r *Report, path string) error {
+		return r.forLines(path, func(line []byte) error {
+			var v struct {
+				Ids       []uint32 `json:"ids"`
+				Ws        []uint32 `json:"ws"`
+				SortedIds []uint32 `json:"sorted_ids"`
+				SortedWs  []uint32 `json:"sorted_ws"`
+				Idx       []uint32 `json:"idx"`
+				Total     uint32   `json:"total"`
+			}
+			if err := json.Unmarshal(line, &v); err != nil {
+				return err
+			}
+			raw := json.RawMessage(append([]byte{}, line...))
+			b := pos.NewBuilder()
+			for k, id := range v.Ids {
+				b.Set(idx.ValidatorID(id), pos.Weight(v.Ws[k]))
+			}
+			built := b.Build()
+			r.Counts["sets"]++
+			if len(v.Ids) >= 13 {
+				r.Counts["sets_ge_13"]++
+			}
+			for _, via := range []string{"", "copy", "builder", "rlp"} {
+				vs, err := derive(built, via)
+				if err != nil {
+					return err
+				}
+				tag := "canon"
+				if via != "" {
+					tag = "canon:" + via
+				}
+				ids := make([]uint32, 0, len(v.Ids))
+				for _, x := range vs.SortedIDs() {
+					ids = append(ids, uint32(x))
+				}
+				ws := make([]uint32, 0, len(v.Ids))
+				for _, x := range vs.SortedWeights() {
+					ws = append(ws, uint32(x))
+				}
+				ix := make([]uint32, len(v.Ids))
+				for k, id := range v.Ids {
+					ix[k] = uint32(vs.GetIdx(idx.ValidatorID(id)))
+				}
+				r.eq(tag+":order", "SortedIDs()", raw, v.SortedIds, ids)
+				r.eq(tag+":weights", "SortedWeights()", raw, v.SortedWs, ws)
+				r.eq(tag+":index", "GetIdx(id) for the ids as given", raw, v.Idx, ix)
+				r.eq(tag+":total", "TotalWeight()", raw, v.Total, uint32(vs.TotalWeight()))
+			}
+			return nil
+		})
+	}
 	vecKinds["bigstakes"] = func(r *Report, path string) error {
 		return r.forLines(path, func(line []byte) error {
 			var v struct {
